@@ -1,6 +1,6 @@
 """C07 — broadcasts reach exactly the connections whose match rules match (unit level: rule
 grammar, equality, matcher; the delivery side runs in the bus histories)."""
-import json, random, os
+import json, random, os, re
 from concurrent.futures import ThreadPoolExecutor
 from ..common import *
 from .. import common, build, lean, check, script, wiregen
@@ -155,12 +155,152 @@ def run(ctx):
                 "paths, other types or missing, values that are prefixes/extensions of rule values; parse results, rule equality and match verdicts compared",
         "samples": [bytes.fromhex(l.split()[2]).decode("latin1") if l.split()[2] != "-" else "" for l in lines[:6]],
         "distribution": counts, "traces_validated_against_impl": len(lines)})
+    run_bus(ctx)
     ctx.assumptions += ["the unit-level matcher is called as for a message the bus originates (sender / addressed recipient NULL); sender=, destination= and "
                         "eavesdrop interplay with ownership are exercised by the bus histories"]
 
 
+# ---------------------------------------------------------------- end to end (bus histories)
+
+MODULE_BUS = "Dbus.Props.C07Bus"
+THEOREMS_BUS = ["recipient_iff", "recipients_nodup", "gate_broadcast_pending", "broadcast_reaches_exactly_the_matching",
+                "disconnected_gets_nothing"]
+W_BUS = {"addmatch": 22, "removematch": 8, "signal": 30, "call": 8, "reply": 2, "request": 10, "release": 3, "close": 4, "connect": 5,
+         "hello": 5, "forged": 2, "query": 1, "driver_edge": 0, "nodest": 0, "badtype": 0, "garbage": 0}
+SIMPLE = re.compile(rb"^(?:[a-z0-9_]+='[^'\\]*')(?:,[a-z0-9_]+='[^'\\]*')*$")
+TYPES = {"signal": "4", "method_call": "1", "method_return": "2", "error": "3"}
+
+
+def parse_simple(text):
+    """rules in the plain key='value' form (no quoting tricks) -> dict, or None (the unit-level check covers the rest)"""
+    if text == b"":
+        return {}
+    if not SIMPLE.match(text):
+        return None
+    d = {}
+    for part in text.split(b","):
+        k, _, v = part.partition(b"=")
+        k = k.decode(); v = v[1:-1].decode("latin1")
+        if k in d or k not in ("type", "interface", "member", "path", "path_namespace", "sender", "destination", "eavesdrop", "arg0",
+                               "arg1", "arg0path", "arg0namespace"):
+            return None
+        d[k] = v
+    if "path" in d and "path_namespace" in d:
+        return None
+    if d.get("eavesdrop") == "false":
+        del d["eavesdrop"]          # the default: equal to the rule without it
+    elif "eavesdrop" in d and d["eavesdrop"] != "true":
+        return None
+    return d
+
+
+def rule_matches(d, line, sender_owns, dest_owned_by):
+    """the match-rule semantics of the specification on a canonical message line"""
+    from ..buscheck import fld, hexname
+    dest = hexname(fld(line, "dest"))
+    if d.get("eavesdrop") != "true" and dest is not None:
+        return False
+    if "type" in d and TYPES.get(d["type"]) != fld(line, "t"): return False
+    if "interface" in d and hexname(fld(line, "iface")) != d["interface"]: return False
+    if "member" in d and hexname(fld(line, "member")) != d["member"]: return False
+    if "path" in d and hexname(fld(line, "path")) != d["path"]: return False
+    if "path_namespace" in d:
+        p, ns = hexname(fld(line, "path")), d["path_namespace"]
+        if p is None or not (p == ns or p.startswith(ns.rstrip("/") + "/")): return False
+    if "sender" in d and not sender_owns(d["sender"]): return False
+    if "destination" in d and not (dest is not None and dest_owned_by(d["destination"])): return False
+    args, depth, cur = [], 0, ""
+    for ch in (fld(line, "body") or ""):
+        if ch == "[": depth += 1
+        elif ch == "]": depth -= 1
+        if ch == "," and depth == 0:
+            args.append(cur); cur = ""
+        else:
+            cur += ch
+    if cur: args.append(cur)
+    def arg(i):
+        if i >= len(args) or args[i][:2] not in ("s:", "o:"): return None
+        v = args[i][2:]
+        return (args[i][0], "" if v == "-" else bytes.fromhex(v).decode("latin1"))
+    for k in ("arg0", "arg1"):
+        if k in d:
+            a = arg(int(k[3]))
+            if a is None or a[0] != "s" or a[1] != d[k]: return False
+    if "arg0path" in d:
+        a = arg(0)
+        if a is None: return False
+        v, e = a[1], d["arg0path"]
+        if not (v == e or (v.endswith("/") and e.startswith(v)) or (e.endswith("/") and v.startswith(e))): return False
+    if "arg0namespace" in d:
+        a = arg(0)
+        if a is None or a[0] != "s": return False
+        v, e = a[1], d["arg0namespace"]
+        if not (v == e or v.startswith(e + ".")): return False
+    return True
+
+
+def bus_oracle(tr):
+    from ..buscheck import fld, hexname, Tracker
+    bad = []
+    tk = Tracker()
+    rules = {}          # cid -> list of (text, parsed or None)
+    for i, (per, closed) in enumerate(tr.steps):
+        tk.before(i, tr)
+        op = tr.ops[i]
+        sent = tr.sent(i) if op[0] == "send" else None
+        actor = op[1] if op[0] == "send" else None
+        if sent and actor in tk.names and fld(sent, "t") == "4" and fld(sent, "dest") == "-" and \
+                hexname(fld(sent, "iface")) != "org.freedesktop.DBus.Peer":
+            me = tk.names[actor]
+            for cid in tk.live:
+                rs = rules.get(cid, [])
+                if cid not in tk.names or any(p is None for _, p in rs):
+                    continue            # a rule the simple matcher cannot judge
+                want = any(rule_matches(p, sent, lambda n: n == me or tk.primary(n) == actor, lambda n: False) for _, p in rs)
+                got = len([l for l in per.get(cid, []) if hexname(fld(l, "sender")) == me and fld(l, "ser") == fld(sent, "ser") and fld(l, "t") == "4"])
+                if got != (1 if want else 0):
+                    bad.append((None, "step %d: broadcast %s.%s from %s: connection %d with rules %s got %d copies" %
+                                (i, hexname(fld(sent, "iface")), hexname(fld(sent, "member")), me, cid, [t.decode("latin1") for t, _ in rs][:4], got)))
+        # rule bookkeeping from the acknowledged AddMatch / RemoveMatch
+        if sent and actor in tk.names and fld(sent, "t") == "1" and hexname(fld(sent, "dest")) == "org.freedesktop.DBus" and \
+                hexname(fld(sent, "member")) in ("AddMatch", "RemoveMatch") and hexname(fld(sent, "iface")) in ("org.freedesktop.DBus", None):
+            mine = per.get(actor, [])
+            ok = any(fld(l, "t") == "2" and fld(l, "rs") == fld(sent, "ser") for l in mine)
+            err = any(fld(l, "t") == "3" and fld(l, "rs") == fld(sent, "ser") for l in mine)
+            body = fld(sent, "body") or ""
+            if body.startswith("s:") and ok and not err:
+                text = b"" if body == "s:-" else bytes.fromhex(body[2:])
+                parsed = parse_simple(text)
+                if hexname(fld(sent, "member")) == "AddMatch":
+                    rules.setdefault(actor, []).append((text, parsed))
+                else:
+                    lst = rules.get(actor, [])
+                    for k in range(len(lst) - 1, -1, -1):
+                        if lst[k][1] == parsed and (parsed is not None or lst[k][0] == text):
+                            del lst[k]; break
+        tk.after(i, tr)
+        for c in list(rules):
+            if c not in tk.live:
+                rules.pop(c)
+    return bad
+
+
+def run_bus(ctx):
+    from .. import buscheck
+    check.lean_obligations(ctx, MODULE_BUS, THEOREMS_BUS)
+    n = 50 if ctx.quick() else 1200
+    buscheck.run_histories(ctx, n, 90 if ctx.quick() else 140, bus_oracle,
+                           gen_kw={"weights": W_BUS, "max_conns": 5, "rule_uniques": False}, label="broadcast-delivery")
+    buscheck.run_histories(ctx, n // 2, 170 if ctx.quick() else 240, bus_oracle,
+                           gen_kw={"weights": dict(W_BUS, connect=14, hello=12, close=11, addmatch=24, signal=26, request=3, call=2),
+                                   "max_conns": 6, "rule_uniques": True}, seed_salt=51, label="rules-naming-unique-names")
+
+
 def replay(path):
     data = json.load(open(path))
+    if data["replay"].get("kind") == "bus-history":
+        from .. import buscheck
+        return buscheck.replay_history(path, bus_oracle, "C07")
     op = data["replay"].get("op")
     if not op:
         print("replay: no input recorded: %s" % data["what"]); return 1
